@@ -59,7 +59,8 @@ class C09(Prop):
             else:
                 ns = rng.choice([1, 2, 5])
                 sizes = [rng.randint(0, 6) for _ in range(rng.randint(1, 12))]
-                yield {'kind': 'iter', 'max_samples': rng.randint(1, max(1, sum(sizes))), 'sizes': sizes, 'number_samples': ns}
+                yield {'kind': 'iter', 'max_samples': rng.randint(1, max(1, sum(sizes))), 'sizes': sizes, 'number_samples': ns,
+                       'discard': rng.choice([0, 1, 2, 5, 50])}
 
     # ------------------------------------------------------------------ implementation
     def _mt(self, cands, nev):
@@ -77,13 +78,25 @@ class C09(Prop):
             alg = self.mc.IterationSample(max_samples=case['max_samples'], number_samples=case['number_samples'])
             alg.initialise()
             consumed = 0
+            fed = []
             for sz in case['sizes']:
-                res = {'moment_tensors': np.matrix(np.ones((6, sz))), 'ln_pdf': np.zeros((1, sz)), 'n': sz}
+                # log-probabilities spread over several units, so that the discard threshold falls inside the sample
+                lnv = [-0.9 * ((len(fed) + j) % 11) for j in range(sz)]
+                fed += lnv
+                res = {'moment_tensors': np.matrix(np.ones((6, sz))), 'ln_pdf': np.array([lnv]), 'n': sz}
                 _task, end = alg.iterate(res)
                 consumed += 1
                 if end:
                     break
-            return {'consumed': consumed, 'n': int(alg.pdf_sample.n), 'ended': bool(end) if case['sizes'] else False}
+            out = {'consumed': consumed, 'n': int(alg.pdf_sample.n), 'ended': bool(end) if case['sizes'] else False, 'fed': fed}
+            if fed:
+                # the algorithm's own output with a discard factor: only samples below max/(discard * tried) may go
+                d = case.get('discard', 0)
+                res, _txt = alg.output(normalise=True, convert=False, discard=d)
+                lp = res.get('ln_pdf')
+                out['out_ln'] = sorted(float(v) for v in np.asarray(lp, dtype=float).flatten()) if lp is not None and not isinstance(lp, list) else []
+                out['out_total'] = int(res.get('total_number_samples', -1))
+            return out
         nev, nrows = case['nevents'], case['nrows']
         s = self.sampling.Sample(initial_sample_size=case['init'], number_events=nev)
         for b in case['batches']:
@@ -192,6 +205,23 @@ class C09(Prop):
             if impl['consumed'] != exp:
                 out.append(('iteration-stop', 'sampling stopped after %d batches, the limit %d is first reached at batch %d' %
                             (impl['consumed'], case['max_samples'], exp), None))
+            if impl.get('fed') and 'out_ln' in impl:
+                fed, d = impl['fed'], case.get('discard', 0)
+                total = len(fed)
+                if impl['out_total'] != total:
+                    out.append(('count', 'the algorithm reports %d tried samples, %d were fed' % (impl['out_total'], total), None))
+                mx = max(fed)
+                thr = mx - math.log(d * total) if d else NEG_INF
+                must = sorted(v for v in fed if v > thr + 1e-9)          # these are above the stated fraction of the maximum
+                may = sorted(v for v in fed if v >= thr - 1e-9)
+                got = impl['out_ln']
+                # normalised output: compare relative to the maximum
+                gm = max(got) if got else 0.0
+                rel = sorted(v - gm for v in got)
+                need = sorted(v - mx for v in must)
+                if len(rel) < len(need) or len(rel) > len(may):
+                    out.append(('discard', 'algorithm output with discard factor %r kept %d of %d samples; %d lie above max/(discard x tried), '
+                                '%d at or above it' % (d, len(rel), total, len(need), len(may)), None))
             return out
         keep = [c for b in case['batches'] for c in b['cands'] if any(v != NEG_INF for v in c['col'])]
         total = sum(b['n'] for b in case['batches'])
